@@ -3,6 +3,7 @@ CONSTANTS Setters = {"S1", "S2"}
  MaxH = 3
  MaxG = 3
  UseCAS = FALSE
+ WithInit = FALSE
 SPECIFICATION Spec
 INVARIANTS OkIsStored ElapsedIsRight NoLostWakeup CancelReleases HeightIsStored
 PROPERTIES HeightMonotone
